@@ -13,7 +13,8 @@
 (* from the specification reach every state of the real handler.            *)
 EXTENDS Tui, TraceBase
 
-Known(ev) == ev.key \in Keys
+(* "none": bytes from the terminal that are not a key stroke (a key release) *)
+Known(ev) == ev.key \in Keys \cup {"none"}
 
 Ok(ev) == /\ Known(ev)
           /\ ev.out = "ok"
